@@ -426,6 +426,13 @@ class BuiltinsMixin:
             if name == "get":
                 k = args[0]
                 default = args[1] if len(args) > 1 else NONE
+                dd = self.deref(default) if isinstance(default, VRef) else default
+                if isinstance(r.val, VMap) and isinstance(dd, VConstDict) and not dd.items:
+                    # d.get(k, {}) on a map of maps: the empty map of the inner kind
+                    inner = vals.sel(r.val, vals.key_term(r, k if not isinstance(k, (VOpt, VNone)) else r.key))
+                    default = VMap(inner.key, z3.K(inner.ksort(), z3.BoolVal(False)), vals.dummy_like(inner.val))
+                elif isinstance(dd, (VMap, VList, VSet)):
+                    default = dd
                 if isinstance(k, VNone):
                     return default
                 knone = z3.BoolVal(False)
